@@ -325,6 +325,46 @@ def _close(a, b):
     return a == b or abs(a - b) <= 1e-12 * (1 + abs(a) + abs(b))
 
 
+def reconfigured_fill_engine(M, rec, rng, g, reps):
+    """One live NumPy engine that fills the variables the caller does not supply (`var_type=<number>`),
+    re-configured through its documented setter between steps: stepping again with the configuration and the
+    values of the first step gives the first result."""
+    NE, CE = drive.engines(M)
+    sh = W.shapes_cycle()
+    for it in range(reps):
+        desc = g.all_kinds_network() if it % 3 == 0 else g.network(next(sh))[1]
+        built = D.build(M, desc, D.random_ops(desc, rng))
+        kw = drive.step_pars(g.pars())
+        _, vals = g.values(desc, allow_inf=False)
+        # only the links are supplied: queues, demands, rates, limits ... are filled by the engine
+        full = drive.np_init(built, vals, "vec1")
+        ic = {el_: {k_: v_ for k_, v_ in d_.items() if k_ in ("rho", "v")} for el_, d_ in full.items() if el_ in list(built.links.values())}
+        a, b = rng.sample((0.0, 0.5, 1.0, 30.0, 800.0), 2)
+        eng = NE(var_type=a)
+        try:
+            built.net.step(init_conditions=ic, engine=eng, **kw)
+            r1 = drive.read_next(built)
+            eng.var_type = b
+            built.net.step(init_conditions=ic, engine=eng, **kw)
+            r2 = drive.read_next(built)
+            built.net.step(init_conditions=ic, engine=NE(var_type=b), **kw)
+            r2_fresh = drive.read_next(built)
+            eng.var_type = a
+            built.net.step(init_conditions=ic, engine=eng, **kw)
+            r3 = drive.read_next(built)
+        except Exception as e:
+            rec.count("fill_engine_history_raised")
+            rec.seen("fill_engine_history_raised", repr(e)[:100])
+            continue
+        rec.count("reconfigured_fill_engine_histories")
+        if not _bitwise(r2, r2_fresh):
+            rec.violation(f"{PROP}:numpy: a fill-value engine re-configured through its setter does not step like a fresh engine with that configuration (what it stepped before shows)",
+                          {"desc": desc, "fill_values": [a, b], "reconfigured": _show(r2), "fresh": _show(r2_fresh)})
+        if not _bitwise(r1, r3):
+            rec.violation(f"{PROP}:numpy: with a fill-value engine re-configured through its setter and set back, the first step is not reproduced",
+                          {"desc": desc, "fill_values": [a, b, a], "first": _show(r1), "again": _show(r3)})
+
+
 def run(M, rec, tier, seed, k, n):
     np.seterr(all="ignore")
     rng = random.Random(seed * 1000 + k + 1200)
@@ -335,6 +375,7 @@ def run(M, rec, tier, seed, k, n):
         desc = g.all_kinds_network() if it % 5 == 0 else g.network(shape)[1]
         rec.seen("net_signatures", D.signature(desc))
         history(M, rec, rng, g, desc)
+    reconfigured_fill_engine(M, rec, rng, g, 30 if tier == "quick" else 300)
 
 
 def finish(M, rec, write=True):
